@@ -14,7 +14,7 @@ def _mk_expand(n, oname, tiers, timeout, wmax=240, cell_hi=200):
     if opts.get("ratios"):
         opts["ratios"] = opts["ratios"][:n]
 
-    @symx("C07-kernel-expand-%dcol-%s" % (n, oname), tiers=tiers, timeout=timeout, kind="S", functions=F_K, stubs=K_STUBS,
+    @symx("C07-kernel-expand-%dcol-%s%s" % (n, oname, "" if wmax == 240 else "-w%d" % wmax), tiers=tiers, timeout=timeout, kind="S", functions=F_K, stubs=K_STUBS,
           opts={"query_timeout_ms": 900000},
           bounds="%d flexible columns without width caps, expand=True, cell measurements 0<=min<=max<=%d symbolic, budget from the "
                  "structural minimum to %d symbolic, options %r: the column widths sum to exactly the budget" % (n, cell_hi, wmax, opts),
@@ -31,8 +31,11 @@ for _o in ["plain", "pad", "pad-collapse", "ratio-expand", "ratio-mixed-expand",
     _mk_expand(2, _o, ("quick", "thorough"), 600)
 for _o in ["plain", "ratio-expand"]:
     _mk_expand(3, _o, ("quick", "thorough"), 900)
-for _o in ["pad", "pad-collapse", "ratio-mixed-expand", "pad-noedge-expand"]:
-    _mk_expand(3, _o, ("thorough",), 3000)
+_mk_expand(3, "ratio-mixed-expand", ("thorough",), 3000)
+# three padded expanding columns: with budgets up to 240 z3 answers `unknown` after its 900 s query timeout (non-linear integer
+# arithmetic from ratio_distribute over three symbolic widths); the smaller stated bound is decided (cf. C01)
+for _o in ["pad", "pad-collapse", "pad-noedge-expand"]:
+    _mk_expand(3, _o, ("thorough",), 2400, wmax=24, cell_hi=16)
 
 
 def _mk_capped(n, tiers, timeout):
